@@ -2,7 +2,7 @@
    This file holds only the property theorems (closed by [exact]), their assumptions and non-vacuity examples. *)
 From Coq Require Import List Arith ZArith QArith Bool Lia Lqa.
 Import ListNotations.
-From TL Require Import Model.Graph Proofs.Graph_inv Proofs.Graph_step Proofs.Graph_final Proofs.Graph_stop Proofs.Graph_fuel.
+From TL Require Import Model.Graph Proofs.Graph_inv Proofs.Graph_step Proofs.Graph_final Proofs.Graph_stop Proofs.Graph_fuel Proofs.Graph_ante Proofs.Graph_target.
 Open Scope Q_scope.
 
 (* Untargeted run with the model's own fuel: every value is the minimum over permitted walks; no value <-> no walk *)
@@ -32,6 +32,27 @@ Theorem C06_cut_complete g src s u du cut : nonneg g -> Inv g src s ->
   visite s t = true /\ exists dt, poids s t = Some dt /\ dt <= cost p.
 Proof. exact (cut_complete g src s u du cut). Qed.
 Print Assumptions C06_cut_complete.
+
+(* End to end, what Network.shortest_distance(src, t) returns (forward run stopped on the target, model's own fuel):
+   the value is the minimum over permitted walks, and there is no value (the -1 sentinel) exactly when no walk exists *)
+Theorem C06_shortest_distance g src t cut : nonneg g -> never_cut cut g src ->
+  let s := run (fuel_of g) g (Some t) cut (init src) in
+  (forall d, poids s t = Some d ->
+     (exists p, walk g src t p /\ cost p == d) /\ (forall p, walk g src t p -> d <= cost p)) /\
+  (poids s t = None -> forall p, ~ walk g src t p).
+Proof. exact (shortest_distance_correct g src t cut). Qed.
+Print Assumptions C06_shortest_distance.
+
+(* End to end, one source of Network.all_shortest_distances(cut): the recorded entries are exactly the targets whose true
+   distance does not exceed the cut-off, each once, each with its true distance *)
+Theorem C06_table g src cut : nonneg g ->
+  let s := run (fuel_of g) g None cut (init src) in
+  (forall t d, In (t, d) (out s) ->
+     d <= cut /\ (exists p, walk g src t p /\ cost p == d) /\ (forall p, walk g src t p -> d <= cost p)) /\
+  (forall t p, walk g src t p -> cost p <= cut -> exists d, In (t, d) (out s)) /\
+  NoDup (map fst (out s)).
+Proof. exact (table_correct g src cut). Qed.
+Print Assumptions C06_table.
 
 (* non-vacuity: a graph with a zero weight, a reverse edge and an unreachable node *)
 Example C06_nonvacuous :
